@@ -179,6 +179,7 @@ type Amount struct {
 	Sym        string   `json:"sym,omitempty"`
 	Left       bool     `json:"left,omitempty"`
 	SymSpace   bool     `json:"symspace,omitempty"`   // space between left symbol and number
+	SymTab     bool     `json:"symtab,omitempty"`     // ... written as a tab
 	SignBefore bool     `json:"signbefore,omitempty"` // sign before a left commodity
 	Style      NumStyle `json:"style"`
 }
@@ -480,7 +481,12 @@ func renderAmount(b *lineBuf, a *Amount, kindPrefix string, feats Feats) {
 		}
 		b.span(kindPrefix+"commodity", SymText(a.Sym))
 		if a.SymSpace {
-			b.w(" ")
+			if a.SymTab {
+				b.w("\t")
+				feats["commodity.tab-gap"] = true
+			} else {
+				b.w(" ")
+			}
 			if !IsCurrency(a.Sym) && !NeedsQuote(a.Sym) {
 				feats["commodity.left-code-space"] = true
 			}
